@@ -225,7 +225,7 @@ func (r *renderer) emitterOpts(em string) []string {
 	switch em {
 	case "1":
 		return []string{r.cffN + ".WithEmitter(" + r.tr(r.ident(e(0))) + ")"}
-	case "2":
+	case "2", "prestack":
 		return []string{r.cffN + ".WithEmitter(" + r.tr(e(0)) + ")", r.cffN + ".WithEmitter(" + r.tr(e(1)) + ")"}
 	case "stack":
 		return []string{r.cffN + ".WithEmitter(" + r.tr(fmt.Sprintf("%s.EmitterStack(%s.EmitterStack(%s, %s), %s)", r.cffN, r.cffN, e(0), e(1), e(2))) + ")"}
@@ -242,7 +242,7 @@ func EmitterCount(em string) int {
 	switch em {
 	case "1":
 		return 1
-	case "2":
+	case "2", "prestack":
 		return 2
 	case "stack":
 		return 3
@@ -258,6 +258,11 @@ func EmitterCount(em string) int {
 func EmitterGroups(em string) (groups [][]int, primary int) {
 	if em == "shared3" {
 		return [][]int{{0, 1, 2}, {3, 4}}, 3
+	}
+	if em == "prestack" {
+		// emitters 0..2 form a stack built once by the caller and shared by every
+		// instance; emitter 3+i belongs to instance i (judged by its own oracle)
+		return [][]int{{0, 1, 2}}, 3
 	}
 	var g []int
 	for i := 0; i < EmitterCount(em); i++ {
